@@ -109,6 +109,9 @@ func specAttrDefs(spec *TableSpec) *attrDefs {
 	return a
 }
 
+// V1CreateInput builds the SDK v1 CreateTableInput of a table specification.
+func V1CreateInput(spec *TableSpec) *v1ddb.CreateTableInput { return v1CreateInput(spec) }
+
 func v1CreateInput(spec *TableSpec) *v1ddb.CreateTableInput {
 	in := &v1ddb.CreateTableInput{TableName: aws.String(spec.Name), KeySchema: v1KeySchema(spec.Hash, spec.Range)}
 	ad := specAttrDefs(spec)
